@@ -578,6 +578,31 @@ func runC16(p *Program, r *Result) {
 
 	checkPluginLabels(p, r)
 
+	r.Rule("R16.6", "the plugin's messages are read by the strict stanza reader: every token validated and Args the (non-nil) slice of the tokens after the type, which the repeat test `labels != nil` relies on (= R07.1)", 16)
+	if pf, rsf, ivf, df := r.anchor(pkgFormat, "", "Parse"), r.anchor(pkgFormat, "StanzaReader", "ReadStanza"), r.anchor(pkgFormat, "", "isValidString"), r.anchor(pkgFormat, "", "DecodeString"); pf != nil && rsf != nil && ivf != nil && df != nil {
+		checkCanonicalParse(p, r, pf, rsf, ivf, df)
+	}
+
+	r.Rule("R16.7", "replies reach the plugin when they are written: no buffered writer stands between the client and the plugin's stdin (a reply held back in a buffer is never sent when the conversation ends with it)", 1)
+	{
+		n := 0
+		for _, f := range p.Funcs {
+			if !inPkg(f, pkgPlugin) {
+				continue
+			}
+			for _, c := range callsIn(f) {
+				switch calleeName(c.Common()) {
+				case "bufio.NewWriter", "bufio.NewWriterSize", "bufio.NewReadWriter":
+					n++
+					r.Bad(f.String(), "buffered-writer", r.pos(c), "the plugin client builds a buffered writer: what is written to it reaches the plugin only when it is flushed, and the last reply of a conversation (the ok after an error message, the acknowledgements before done) has no later flush")
+				}
+			}
+		}
+		if n == 0 {
+			r.OK("package plugin", "buffered-writer", "", "no bufio writer in the plugin client: every writeStanza goes to the pipe at once")
+		}
+	}
+
 	r.Rule("R16.4", "end conditions", 3)
 	{
 		// recipient: zero stanzas -> error
